@@ -259,6 +259,12 @@ func checkRegistryEdits(c *Ctx, p *Prog, R *BusRoles, rule string) {
 				for _, e := range x.Edges {
 					walk(e)
 				}
+			case *ssa.Slice:
+				// a bare re-slice of the list (handlers[:0], handlers[:n]) drops registrations
+				// that were never matched against a claimed one
+				okAll = false
+				n++
+				c.Violate(rule, "PublishContext/once-removal/shape", p.Pos(x.Pos()), "once-handler retirement re-slices the registry list ("+describeValue(x)+") instead of removing the claimed registrations one by one by identity: registrations added since the snapshot are dropped with them", nil)
 			case *ssa.Call:
 				if bi, ok := x.Common().Value.(*ssa.Builtin); ok && bi.Name() == "append" {
 					n++
